@@ -12,7 +12,7 @@ import random
 from .. import core
 from ..rt import scen
 
-NAMES = ["FailStopSafe", "CauseFaithful", "FailStopObserved"]
+NAMES = ["FailStopWhileStopping", "FailStopSafe", "CauseFaithful", "FailStopObserved"]
 HOWS = {
     "val": ["val:0", "val:0.0", "val:False", "val:''", "val:[]", "val:()", "val:x", "val:obj"],
     "exc": ["exc:LookupError", "exc:UserExc", "exc:UserExcSub", "exc:RuntimeError", "exc:FalsyExc"],
@@ -98,6 +98,23 @@ def run(ctx):
             extra.append({"seed": ctx.seed + k, "jitter": 0.0, "payloads": pl,
                           "script": [{"op": "adopt", "p": "b1"}, {"op": "adopt", "p": "b2"}, {"op": "adopt", "p": "b3"}, {"op": "adopt", "p": "f"}, {"op": "accept"}, {"op": "wait_running"}, {"op": "wait_start", "p": "b1"}, {"op": "wait_start", "p": "b2"}, {"op": "wait_start", "p": "f"},
                                      {"op": "step", "p": "b1"}, {"op": "end", "p": "f", "how": how}, {"op": "wait_end", "timeout": 4.0}], "shape": "targeted-bystander-absorbs-cancel"})
+    # BaseExceptions that frameworks give a meaning of their own (asyncio's CancelledError, a
+    # GeneratorExit) are failures like any other when a payload RAISES them
+    for f in scen.FLAVS:
+        for how in ("base:CancelledError", "base:GeneratorExit"):
+            if f == "asyncio" and how == "base:CancelledError":
+                continue  # inside asyncio that IS the framework's cancellation: the payload just ends
+            pl = {"f": {"flavour": f}, "b1": {"flavour": "trio" if f == "asyncio" else "asyncio", "cleanup": 1}}
+            script = [{"op": "adopt", "p": "b1"}, {"op": "adopt", "p": "f"}, {"op": "accept"}, {"op": "wait_running"}, {"op": "wait_start", "p": "f"}, {"op": "wait_start", "p": "b1"}, {"op": "step", "p": "f"}, {"op": "end", "p": "f", "how": how}, {"op": "wait_end", "timeout": 4.0}]
+            extra.append({"seed": ctx.seed, "jitter": 0.0, "payloads": pl, "script": script, "shape": "targeted-framework-baseexception"})
+    # a payload fails right after shutdown() has been asked for, while the service loop (slow
+    # polling) has not even noticed: all runners are open, the failure ends the run by raising
+    for f in scen.FLAVS:
+        for how in ("exc:UserExc", "val:0"):
+            pl = {"f": {"flavour": f}, "b1": {"flavour": "trio" if f == "asyncio" else "asyncio", "cleanup": 1}}
+            script = [{"op": "adopt", "p": "b1"}, {"op": "adopt", "p": "f"}, {"op": "accept"}, {"op": "wait_running"}, {"op": "wait_start", "p": "f"}, {"op": "wait_start", "p": "b1"}, {"op": "polls", "n": 4},
+                      {"op": "shutdown", "ctx": "thread", "wait": False}, {"op": "end", "p": "f", "how": how}, {"op": "wait_end", "timeout": 6.0}]
+            extra.append({"seed": ctx.seed, "jitter": 0.0, "accept_delay": 1.5, "timeout": 16.0, "payloads": pl, "script": script, "shape": "targeted-failure-right-after-shutdown-request"})
     # an exception OBJECT that is falsy is a failure like any other
     for f in scen.FLAVS:
         for reg in ("pre", "post"):
